@@ -1240,9 +1240,43 @@ def _filename_samples(rng):
     vals += [x16, np.nextafter(x16, np.float16(np.inf))]
     # (longdouble values that are not doubles are outside: they are named
     # through their double value)
+    from pysym.runner import ConcreteViolation
+    # templates with a format specification: a deterministic name in which
+    # distinct values give distinct names, or a refusal (exception) -- never
+    # one name for two distinct values
+    specs = [('res_{p:03d}_{q}.json', [5, 7, 12, np.int16(3), np.int64(40),
+                                      7.5, 0.25, np.float32(2.5)]),
+             ('res_{p:.2f}_{q}.json', [5, 7.5, 0.25, 1.25, np.float32(2.5),
+                                      np.float64(3.75), np.int16(3)]),
+             ('res_{p:>8}_{q}.json', ['a', 'b', 5, 7.5, np.float32(2.5),
+                                     None, [1, 2]]),
+             ('res_{p:e}_{q}.json', [5.0, 7.5, 'a', 12]),
+             ('res_{p[0]}_{q}.json', [[1, 2], [3, 4], 5, 7.5]),
+             ('res_{p.real}_{q}.json', [5, 7.5, 'a', 'b'])]
+    for tmpl, values in specs:
+        named = []
+        for v in values:
+            try:
+                a = name_for(v, tmpl)
+                b = name_for(copy.deepcopy(v), tmpl)
+            except Exception:
+                continue        # refused
+            if a != b:
+                raise ConcreteViolation('C17/filename/not-deterministic',
+                                        dict(value=repr(v), names=[a, b]))
+            for w, nm in named:
+                with np.errstate(all='ignore'):
+                    differ = type(v) is not type(w) and (
+                        isinstance(v, str) or isinstance(w, str)) or \
+                        bool(np.any(v != w))
+                if differ and nm == a:
+                    raise ConcreteViolation(
+                        'C17/filename/format-spec:distinct-values-same-name',
+                        dict(template=tmpl, values=[repr(v), repr(w)],
+                             name=a))
+            named.append((v, a))
     seen = []
     for v in vals:
-        from pysym.runner import ConcreteViolation
         a, b = name_for(v), name_for(copy.deepcopy(v))
         if a != b:
             raise ConcreteViolation('C17/filename/not-deterministic',
